@@ -1594,7 +1594,7 @@ func (rn *Runner) Run() {
 	var reader *mail.Reader
 	for k, op := range ops {
 		wasApplied := mwaApplied // (every render applies the middlewares before anything is written, a failing one too)
-		if op != "SkipMw" && op != "BreakSrc" && op != "FixSrc" {
+		if op != "SkipMw" && op != "BreakSrc" && op != "FixSrc" && op != "AddAlt" {
 			mwaApplied = true
 		}
 		var out bytes.Buffer
@@ -1712,6 +1712,9 @@ func (rn *Runner) Run() {
 				buf := make([]byte, want)
 				_, _ = io.ReadFull(reader, buf)
 			})
+			continue
+		case "AddAlt": // the caller adds another body part between two renders
+			built.Msg.AddAlternativeString(mail.TypeTextHTML, fmt.Sprintf("<p>added before render %d</p>\r\n", k+2))
 			continue
 		case "BreakSrc", "FixSrc": // producers start / stop failing
 			built.Broken.On = op == "BreakSrc"
